@@ -286,13 +286,19 @@ void replay_c05(const std::string &hist) {
 // ------------------------------------------------------------------ C10: re-entrant callbacks
 // Every observer performs a fixed list of actions, in order, each time it is invoked.
 // A_UNSUBD: unsubscribe the target only when called from a nested round (nesting depth 1): an observer that is removed while one of its own calls is still on the stack further up
-enum Act { A_NONE, A_SUBNEW, A_UNSUB, A_MUTE, A_UNMUTE, A_INVAL, A_NOTIFY, A_UNSUBD, NACTS };
-const char *aname[] = {"none", "subnew", "unsub", "mute", "unmute", "inval", "notify", "unsubd"};
+// A_OTHER: notify a SECOND Subject (two observers of its own) from inside the callback: the two Subjects share nothing, so the round in progress must not notice
+enum Act { A_NONE, A_SUBNEW, A_UNSUB, A_MUTE, A_UNMUTE, A_INVAL, A_NOTIFY, A_UNSUBD, A_OTHER, NACTS };
+const char *aname[] = {"none", "subnew", "unsub", "mute", "unmute", "inval", "notify", "unsubd", "other"};
 struct Action { int act, target; };
 typedef std::vector<Action> Script;
 
 struct RSys {
     std::unique_ptr<Subject<int>> subject;
+    std::unique_ptr<Subject<int>> other; int other_calls = 0, other_notifies = 0; std::vector<Subscription<int>> other_handles;      // the second Subject and its two observers
+    void notify_other() {
+        if (!other) { other = std::make_unique<Subject<int>>(); for (int k = 0; k < 2; k++) other_handles.push_back(other->subscribe([this](int) { other_calls++; })); }
+        other_notifies++; other->notify(7);
+    }
     std::vector<Subscription<int>> handles;       // index = observer id
     std::vector<Script> scripts;                  // per observer id (observers added during the run do nothing)
     struct Call { int first, second, round; };    // observer id, nesting depth, serial number of the notify() call that made it
@@ -318,6 +324,7 @@ struct RSys {
             case A_UNMUTE: if (handles[t].isValid()) handles[t].unmute(); break;
             case A_INVAL: if (t == me && self) { if (!destroyed[me]) (*self)->invalidate(); } else if (handles[t].isValid()) handles[t].getObserver()->invalidate(); break;
             case A_NOTIFY: if (depth < 2) { depth++; do_notify(100 + depth); depth--; } break;
+            case A_OTHER: notify_other(); break;
             }
         }
     }
@@ -392,6 +399,7 @@ void run_config(int n, unsigned mutemask, const std::vector<Script> &scripts) {
     for (int i = 0; i < n && i < 32; i++) ref.obs[i].muted = mutemask >> i & 1;
     ref.round(); if (ref.err.empty()) ref.round();
     if (ref.err.empty() && ref.pos != sys.log.size()) ref.err = fmt("the implementation made %zu calls, the rounds as defined by the property explain only the first %zu", sys.log.size(), ref.pos);
+    if (ref.err.empty() && sys.other_calls != 2 * sys.other_notifies) ref.err = fmt("a second Subject with two observers was notified %d times from inside callbacks of the first and made %d calls, expected %d", sys.other_notifies, sys.other_calls, 2 * sys.other_notifies);
     if (!ref.err.empty()) {
         std::string l; for (auto &c : sys.log) l += fmt("%d@%d/r%d ", c.first, c.second, c.round);
         violation("reentrant:round-semantics", ref.err + "; call log (observer@depth/notify serial): " + l);
@@ -408,7 +416,7 @@ void run_config(int n, unsigned mutemask, const std::vector<Script> &scripts) {
 }
 
 std::vector<Action> menu(int n) {
-    std::vector<Action> m{{A_SUBNEW, 0}, {A_NOTIFY, 0}};
+    std::vector<Action> m{{A_SUBNEW, 0}, {A_NOTIFY, 0}, {A_OTHER, 0}};
     for (int t = 0; t < n; t++) for (int a : {A_UNSUB, A_MUTE, A_UNMUTE, A_INVAL, A_UNSUBD}) m.push_back(Action{a, t});
     return m;
 }
@@ -477,7 +485,7 @@ void explore_c10() {
     parallel(tasks);
     shm->validated = shm->evaluations;
     sx::detail(fmt("the 2 observers x <= 2 actions configurations%s again among %d..%d observers in total (the others only count their calls; before, after and around the active ones; totals %s)", thorough() ? "" : " that contain a nested notify", totals.front(), totals.back(), thorough() ? "all" : "3..10, 15..19, 31..35, 63..67"));
-    sx::detail("every assignment of an action LIST per callback (actions: subscribe a new observer, nested notify up to depth 2, unsubscribe/mute/unmute/invalidate any target incl. itself; performed in order on every invocation) for the shapes " + shape_txt +
+    sx::detail("every assignment of an action LIST per callback (actions: subscribe a new observer, nested notify up to depth 2, notify of a second Subject, unsubscribe/mute/unmute/invalidate any target incl. itself; performed in order on every invocation) for the shapes " + shape_txt +
                "; two consecutive rounds each, every initial mute mask where unmute is used; observer objects must be destroyed exactly when they leave; states = configurations, transitions = rounds");
 }
 
